@@ -62,6 +62,8 @@ INSIDE_EXTRA = [
     ("while-promoted-float", "n = 0\nwhile n < 3:\n    half = n * 0.5\n    mon.write(half)\n    n += 1\nmon.write(half)\n"),
     ("while-promoted-in-main-loop", "n = 0\nwhile True:\n    n = 0\n    while n < 2:\n        part = n * 1.5\n        n += 1\n    mon.write(part)\n"),
     ("for-promoted-float", "for i in range(3):\n    acc = i * 0.25\nmon.write(acc)\n"),
+    ("for-promoted-read-in-loop", "for i in range(3):\n    total = i * 2\nwhile True:\n    mon.write(total)\n    total = total + 1\n"),
+    ("while-promoted-read-in-loop", "n = 0\nwhile n < 3:\n    level = n * 2\n    n += 1\nwhile True:\n    mon.write(level)\n"),
     ("if-promoted-str", "c = 3\nif c > 2:\n    label = \"hi\"\nelse:\n    label = \"lo\"\nmon.write(label)\n"),
     ("cond-expr", "a = 3\nb = a if a > 2 else 0\nmon.write(b)\n"),
     ("helper-mixed-returns", "def scale(v):\n    if v > 10:\n        return v / 2.0\n    return v\nmon.write(scale(25))\nmon.write(scale(4))\nx = scale(31)\nmon.write(x)\n"),
